@@ -79,7 +79,39 @@ def shards(tier):
 def floors(tier):
     return {"cases": 20000, "insertions": 20000, "insertions_depth2plus": 1000, "would_fail_values": 8000,
             "next_to_ref": 1000, "base_uri_cases": 100, "own_id_next_to_ref": 100, "foreign_sibling_matrix_cases": 50000, "root_ref_cases": 500, "embedded_lookalike_cases": 2000, "empty_or_hash_ref_cases": 1000, "cases_with_errors": 5000, "foreign_names_used": 150,
-            "foreign_id_in_store_document_cases": 100}
+            "foreign_id_in_store_document_cases": 100, "check_schema_compared": 5000}
+
+
+# the member names the PUBLISHED metaschema of each draft says anything about (its `properties`): a keyword outside this
+# list is unconstrained by the metaschema, whatever its value (written down here, not read from the repository's files)
+MENTIONED = {
+    3: ["$ref", "$schema", "additionalItems", "additionalProperties", "default", "dependencies", "description", "disallow", "divisibleBy", "enum",
+        "exclusiveMaximum", "exclusiveMinimum", "extends", "format", "id", "items", "maxDecimal", "maxItems", "maxLength", "maximum", "minItems",
+        "minLength", "minimum", "pattern", "patternProperties", "properties", "required", "title", "type", "uniqueItems"],
+    4: ["$schema", "additionalItems", "additionalProperties", "allOf", "anyOf", "default", "definitions", "dependencies", "description", "enum",
+        "exclusiveMaximum", "exclusiveMinimum", "format", "id", "items", "maxItems", "maxLength", "maxProperties", "maximum", "minItems", "minLength",
+        "minProperties", "minimum", "multipleOf", "not", "oneOf", "pattern", "patternProperties", "properties", "required", "title", "type",
+        "uniqueItems"],
+    6: ["$id", "$ref", "$schema", "additionalItems", "additionalProperties", "allOf", "anyOf", "const", "contains", "default", "definitions",
+        "dependencies", "description", "enum", "examples", "exclusiveMaximum", "exclusiveMinimum", "format", "items", "maxItems", "maxLength",
+        "maxProperties", "maximum", "minItems", "minLength", "minProperties", "minimum", "multipleOf", "not", "oneOf", "pattern",
+        "patternProperties", "properties", "propertyNames", "required", "title", "type", "uniqueItems"],
+    7: ["$comment", "$id", "$ref", "$schema", "additionalItems", "additionalProperties", "allOf", "anyOf", "const", "contains", "contentEncoding",
+        "contentMediaType", "default", "definitions", "dependencies", "description", "else", "enum", "examples", "exclusiveMaximum",
+        "exclusiveMinimum", "format", "if", "items", "maxItems", "maxLength", "maxProperties", "maximum", "minItems", "minLength", "minProperties",
+        "minimum", "multipleOf", "not", "oneOf", "pattern", "patternProperties", "properties", "propertyNames", "readOnly", "required", "then",
+        "title", "type", "uniqueItems"],
+}
+
+
+def gate_of(d, schema):
+    try:
+        impl.CLS[d].check_schema(schema)
+        return "accepted"
+    except X.SchemaError as e:
+        return "SchemaError"
+    except Exception as e:
+        return "exc:" + type(e).__name__
 
 
 def errors_of(d, schema, inst, resolver=None):
@@ -200,6 +232,15 @@ def compare(ctx, d, S, S2, log, inst, resolver_factory=None, mech=None):
             f0[1][:4], f1[1][:4]), mech=mech)
     if f0 and f0[0] and any(e[4] for e in f0[0]):
         ctx.count("cases_with_context_errors")
+    # a keyword the draft's metaschema does not mention is no business of check_schema / validate() either
+    if log and all(l.get("name") not in MENTIONED[d] and not l.get("next_to_ref") for l in log) and ctx.counters.get("cases", 0) % 4 == 0:
+        g0 = gate_of(d, S)
+        if g0 == "accepted":
+            ctx.count("check_schema_compared")
+            g1 = gate_of(d, S2)
+            if g1 != g0:
+                ctx.violation("check_schema-changed", case, "check_schema accepts the schema, but with %r (which the draft-%d metaschema does not mention) "
+                              "inserted: %s" % ([l["name"] for l in log], d, g1), mech=mech)
 
 
 def base_uri_cases(ctx, d, rng):
